@@ -188,3 +188,69 @@ func (d *registryDriver) Next(w *World, step int) string {
 	}
 	return mv
 }
+
+// registryRawDriver: keyed reverse tunnels whose tunnel-server end is played by the harness, so
+// that a tunnel can end during the settings exchange for reasons other than its context ending
+// (the peer hangs up, or sends a wrong first frame), interleaved with registry queries.
+type registryRawDriver struct {
+	name   string
+	rng    *rand.Rand
+	script []string
+}
+
+func newRegistryRawDriver(name string, seed int64) *registryRawDriver {
+	rng := rand.New(rand.NewSource(seed))
+	d := &registryRawDriver{name: name, rng: rng}
+	keys := []string{"ka", "kb", ""}
+	vias := []string{"multi", "key:ka", "key:kb", "key:nil"}
+	nt := 2 + rng.Intn(4)
+	var healthy []int
+	for t := 0; t < nt; t++ {
+		k := keys[rng.Intn(len(keys))]
+		md := "w=x"
+		if k != "" {
+			md = "key=" + k
+		}
+		if rng.Intn(3) == 0 {
+			d.script = append(d.script, "wait via="+vias[rng.Intn(len(vias))])
+		}
+		d.script = append(d.script, fmt.Sprintf("open t=%d md=%s peer=p%d", t, md, t))
+		switch rng.Intn(4) {
+		case 0: // the peer hangs up before sending its settings
+			d.script = append(d.script, fmt.Sprintf("raws t=%d kind=end code=0", t), fmt.Sprintf("ds t=%d", t))
+		case 1: // a wrong first frame
+			d.script = append(d.script, fmt.Sprintf("raws t=%d id=-1 kind=hdrs md=-", t), fmt.Sprintf("ds t=%d", t))
+		default:
+			d.script = append(d.script, fmt.Sprintf("raws t=%d kind=settings id=-1 revs=0,1 win=65536", t), fmt.Sprintf("ds t=%d", t))
+			healthy = append(healthy, t)
+		}
+		for i, n := 0, rng.Intn(3); i < n; i++ {
+			d.script = append(d.script, "ready via="+vias[rng.Intn(len(vias))])
+		}
+	}
+	r := 0
+	for i, n := 0, 2+rng.Intn(5); i < n; i++ {
+		d.script = append(d.script, fmt.Sprintf("cnew r=%d t=0 shape=U method=auto md=- via=%s opts=x", r, vias[rng.Intn(len(vias))]))
+		r++
+		d.script = append(d.script, "ready via="+vias[rng.Intn(len(vias))])
+	}
+	for _, t := range healthy {
+		if rng.Intn(2) == 0 {
+			d.script = append(d.script, fmt.Sprintf("raws t=%d kind=end code=0", t), fmt.Sprintf("ds t=%d", t), fmt.Sprintf("ds t=%d", t))
+			d.script = append(d.script, "ready via="+vias[rng.Intn(len(vias))], "ready via=multi")
+		}
+	}
+	for _, v := range vias {
+		d.script = append(d.script, "ready via="+v)
+	}
+	return d
+}
+
+func (d *registryRawDriver) Config() Config { return Config{Mode: "rev", RawServer: true, Keys: true} }
+func (d *registryRawDriver) Name() string   { return d.name }
+func (d *registryRawDriver) Next(w *World, step int) string {
+	if step < len(d.script) {
+		return d.script[step]
+	}
+	return ""
+}
